@@ -3,6 +3,8 @@
    Layer A: theories/Deferred.v ([d_step], on top of the StorageCar model of Store.v);
    [d_trace c d_init ops] = the (state, result) pairs of a history, [d_run] its final state;
    [d_bytes] / [d_exists] = the bytes on the stream (or in the file) and whether the file exists.
+   [dc_kids c = []] = the registered callbacks are ordinary ones (none calls OnPut while it fires); re-entrant
+   registration is the last group of theorems.
    All configurations [c] (path / stream target, any options, WriteAsCarV1 given or not, any roots, any
    file already at the output path, ANY write-fault script of the output target) and all operation lists. *)
 From GoCar Require Import Bytes Varint Cid Header Frame V2Header Index Store Deferred.
@@ -27,6 +29,7 @@ Print Assumptions C20_lazy.
    iff the history closed *)
 Theorem C20_identical :
   forall (c : dcfg) (ops : list dop) (s : wstate),
+    dc_kids c = [] ->
     d_inner (d_run c d_init ops) = Some s ->
     exists s0 : wstate,
       open_new (dc_kind c) (eff_opts c) (dc_nilroots c) (dc_roots c) (dc_faults c) = Ok s0 /\
@@ -40,6 +43,7 @@ Print Assumptions C20_identical.
    the path is opened with create+truncate, nothing of an old file survives *)
 Theorem C20_output_is_direct_whatever_was_there :
   forall (c : dcfg) (ops : list dop) (s : wstate),
+    dc_kids c = [] ->
     d_inner (d_run c d_init ops) = Some s ->
     exists s0 : wstate,
       open_new (dc_kind c) (eff_opts c) (dc_nilroots c) (dc_roots c) (dc_faults c) = Ok s0 /\
@@ -52,6 +56,7 @@ Print Assumptions C20_output_is_direct_whatever_was_there.
 (* the inner writer of a path target exists only once the path has been opened (created / truncated) *)
 Theorem C20_file_created_with_writer :
   forall (c : dcfg) (ops : list dop),
+    dc_kids c = [] ->
     d_inner (d_run c d_init ops) <> None -> dc_target c = TPath -> d_created (d_run c d_init ops) = true.
 Proof. exact created_init. Qed.
 Print Assumptions C20_file_created_with_writer.
@@ -59,6 +64,7 @@ Print Assumptions C20_file_created_with_writer.
 (* ... and each Put answers what the direct writer answers *)
 Theorem C20_put_result_is_direct :
   forall (c : dcfg) (pre : list dop) (k d : bytes) (s : wstate),
+    dc_kids c = [] ->
     d_closed (d_run c d_init pre) = false -> d_inner (d_run c d_init pre) = Some s ->
     do_res (snd (d_step c (d_run c d_init pre) (DPut k d))) = snd (st_put s k d).
 Proof. exact put_result_direct. Qed.
@@ -76,6 +82,7 @@ Print Assumptions C20_callback_loop.
    without the once-callbacks that already fired (reference bookkeeping [live]); none on a closed writer *)
 Theorem C20_callbacks :
   forall (c : dcfg) (pre : list dop) (k d : bytes),
+    dc_kids c = [] ->
     do_log (snd (d_step c (d_run c d_init pre) (DPut k d)))
     = (if snd (fold_left live_step pre ([], false)) then []
        else map (fun cb => (fst cb, blen d)) (fst (fold_left live_step pre ([], false)))).
@@ -171,6 +178,7 @@ Print Assumptions C20_opener_lazy.
 
 Theorem C20_opener_identical :
   forall (c : dcfg) (ops : list dxop) (s : wstate),
+    dc_kids c = [] ->
     d_inner (dx_st (dx_run c dx_init ops)) = Some s ->
     exists s0 : wstate,
       open_new (dc_kind c) (eff_opts c) (dc_nilroots c) (dc_roots c) (dc_faults c) = Ok s0 /\
